@@ -176,16 +176,28 @@ class SymInt:
         return None
 
     def _bin(self, o, f):
-        o = SymInt.lift(o)
-        if o is None:
+        oi = SymInt.lift(o)
+        if oi is None:
+            if isinstance(o, (float, numpy.floating, SymReal)):      # int (op) float -> float, as in Python
+                a, b = SymReal.lift(self), SymReal.lift(o)
+                return SymReal(f(a.v, b.v), b.nan)
             return NotImplemented
-        return SymInt(f(self.z, o.z))
+        return SymInt(f(self.z, oi.z))
 
     def _rbin(self, o, f):
-        o = SymInt.lift(o)
-        if o is None:
+        oi = SymInt.lift(o)
+        if oi is None:
+            if isinstance(o, (float, numpy.floating, SymReal)):
+                a, b = SymReal.lift(self), SymReal.lift(o)
+                return SymReal(f(b.v, a.v), b.nan)
             return NotImplemented
-        return SymInt(f(o.z, self.z))
+        return SymInt(f(oi.z, self.z))
+
+    def __truediv__(self, o):        # true division of integers is a float
+        return SymReal.lift(self) / o
+
+    def __rtruediv__(self, o):
+        return o / SymReal.lift(self)
 
     def __add__(self, o): return self._bin(o, lambda a, b: a + b)
     def __radd__(self, o): return self._rbin(o, lambda a, b: a + b)
@@ -196,6 +208,9 @@ class SymInt:
     def __neg__(self): return SymInt(-self.z)
     def __pos__(self): return self
     def __abs__(self): return SymInt(z3.If(self.z < 0, -self.z, self.z))
+
+    def __bool__(self):              # truthiness of an int: non-zero
+        return ctx().decide(self.z != 0)
 
     # Python floor semantics; z3 `div`/`mod` are Euclidean, identical for
     # positive divisors, which is all the code under test uses.
@@ -307,6 +322,9 @@ class SymReal:
     def __mul__(self, o): return self._bin(o, lambda a, b: a * b)
     def __rmul__(self, o): return self._rbin(o, lambda a, b: a * b)
     def __neg__(self): return SymReal(-self.v, self.nan)
+
+    def __bool__(self):              # truthiness of a float: non-zero (NaN is truthy)
+        return ctx().decide(z3.Or(self.nan, self.v != 0))
     def __pos__(self): return self
     def __abs__(self): return SymReal(z3.If(self.v < 0, -self.v, self.v), self.nan)
 
@@ -532,8 +550,10 @@ class SymCtx:
         self.inputs[name] = ('real', v)
         return SymReal(v)
 
-    def int(self, name, lo=None, hi=None):
+    def int(self, name, lo=None, hi=None, hint=None):
         v = z3.Int(name)
+        if hint is not None:
+            self.hints[name] = (v, int(hint))
         self.inputs[name] = ('int', v)
         if lo is not None:
             self.solver.add(v >= lo)
@@ -765,7 +785,7 @@ class ConCtx:
             return float('nan') if bool(flag) else to_float(self.values[name])
         return to_float(self.values[name])   # own flag: 'nan' is stored as the value
 
-    def int(self, name, lo=None, hi=None):
+    def int(self, name, lo=None, hi=None, hint=None):
         return int(self.values[name])
 
     def bool(self, name):
